@@ -88,6 +88,7 @@ class _Gen:
         self.last_hyd_ok_possible = False
         self.dirty_since_hyd = True
         self.user = {}
+        self.topo_dirty = False
         self.restarts_allowed = prop in ("C15",)
         self.reuse_allowed = prop in ("C07",)
 
@@ -153,7 +154,7 @@ class _Gen:
             return []
         kind = rng.choice(kinds)[len("solve-"):]
         stage = "hyd"
-        if kw["mode"] in ("sequential", "bidirectional") and rng.random() < 0.5:
+        if kw.get("mode") in ("sequential", "bidirectional", "all") and rng.random() < 0.5:
             stage = "heat"
         call = rng.choice([0, 0, 1, 1, 2, 3, 5])
         f = {"stage": stage, "call": call, "kind": kind, "pos": rng.randrange(0, 64)}
@@ -163,28 +164,39 @@ class _Gen:
         return [f]
 
     # -- op makers -----------------------------------------------------------------------
+    WEIGHTS = {
+        #        calc  edit  repeat setopt initopt restart heat  undo
+        "C12": (0.42, 0.16, 0.08, 0.08, 0.03, 0.00, 0.10, 0.13),
+        "C05": (0.60, 0.10, 0.05, 0.06, 0.00, 0.00, 0.07, 0.12),
+        "C14": (0.30, 0.05, 0.02, 0.30, 0.28, 0.00, 0.02, 0.03),
+        "C15": (0.34, 0.12, 0.02, 0.10, 0.00, 0.24, 0.10, 0.08),
+        "C07": (0.50, 0.32, 0.03, 0.05, 0.00, 0.00, 0.00, 0.10),
+    }
+
     def make_ops(self, n):
         rng = self.rng
         ops = []
+        w = self.WEIGHTS.get(self.prop, self.WEIGHTS["C12"])
+        kinds = ("calc", "edit", "repeat", "setopt", "initopt", "restart", "heat", "undo")
         # always start with one plain calculation so there is state to be stale about
         while len(ops) < n:
-            r = rng.random()
-            if not ops or r < 0.45:
+            k = rng.choices(kinds, weights=w)[0] if ops else "calc"
+            if k == "calc":
                 ops.extend(self.op_calc())
-            elif r < 0.60:
+            elif k == "edit":
                 ops.extend(self.op_edit())
-            elif r < 0.68:
+            elif k == "repeat":
                 if self.last_calc:
                     ops.append({"op": "repeat"})
                 else:
                     ops.extend(self.op_calc())
-            elif r < 0.78:
+            elif k == "setopt":
                 ops.append(self.op_setopt())
-            elif r < 0.83:
-                ops.append({"op": "initopt", "kw": self.calc_kw()})
-            elif r < 0.93 and self.restarts_allowed:
+            elif k == "initopt":
+                ops.append({"op": "initopt", "kw": self.opt_kw()})
+            elif k == "restart":
                 ops.append(self.op_restart())
-            elif r < 0.97 and self.meta["thermal"]:
+            elif k == "heat" and self.meta["thermal"]:
                 ops.extend(self.op_heat_from_stored())
             else:
                 ops.extend(self.op_undo())
@@ -192,9 +204,38 @@ class _Gen:
         ops.extend(self.op_calc(force_plain=True))
         return ops
 
+    # catalogue for the option-store profile (C14): every documented key with sample values
+    OPT_CATALOGUE = [
+        ("friction_model", ["nikuradse", "colebrook", "swamee-jain"]),
+        ("tol_p", [1e-4, 1e-6]), ("tol_m", [1e-4, 1e-6]), ("tol_T", [1e-2, 1e-4]), ("tol_res", [1e-2, 1e-4]),
+        ("max_iter_hyd", [40, 70]), ("max_iter_therm", [40, 70]), ("max_iter_bidirect", [40, 70]),
+        ("iter", [50, 90]), ("error_flag", [True, False]), ("alpha", [1, 0.5]),
+        ("nonlinear_method", ["constant", "automatic"]), ("ambient_temperature", [283.15, 300.0]),
+        ("check_connectivity", [True, False]), ("max_iter_colebrook", [20, 100]),
+        ("only_update_hydraulic_matrix", [True, False]), ("reuse_internal_data", [True, False]),
+        ("use_numba", [True, False]), ("quit_on_inconsistency_connectivity", [True, False]),
+        ("calc_compression_power", [True, False]), ("transient", [False]), ("dt", [None, 60]),
+        ("tolerance_colebrook", [1e-4, 1e-6]), ("my_unknown_option", [1, "x"]), ("another_unknown", [2.5]),
+        ("interactive_plotting", [False]), ("t_start", [0]),
+    ]
+
+    def opt_kw(self, nmax=5, allow_mode=True):
+        """Option kwargs for the C14 profile: random subset of the catalogue (+ mode)."""
+        if self.prop != "C14":
+            return self.calc_kw()
+        rng = self.rng
+        kw = {}
+        for k, vals in rng.sample(self.OPT_CATALOGUE, rng.randint(0, nmax)):
+            kw[k] = rng.choice(vals)
+        if allow_mode and rng.random() < 0.6:
+            m = self.modes() + (["all"] if self.meta["thermal"] else [])
+            kw["mode"] = rng.choice(m)
+        return kw
+
     def op_calc(self, force_plain=False):
         rng = self.rng
-        faulty = (not force_plain) and (not self.knobs["fault_free"]) and rng.random() < 0.3
+        pf = 0.5 if self.prop == "C05" else (0.1 if self.prop in ("C14", "C07") else 0.3)
+        faulty = (not force_plain) and (not self.knobs["fault_free"]) and rng.random() < pf
         pre, post = [], []
         tiny = False
         faults = []
@@ -217,12 +258,23 @@ class _Gen:
                     pre.append({"op": "edit", "table": t, "index": i, "col": "in_service", "val": False})
                     post.append({"op": "edit", "table": t, "index": i, "col": "in_service", "val": True})
         kw = self.calc_kw(tiny_budget=tiny)
+        if self.prop == "C14" and not tiny and not force_plain:
+            kw = self.opt_kw()
+            for k in ("iter",) + STAGE_ITER:
+                if k in kw:
+                    kw[k] = max(kw[k], 40)
         if faulty and not pre and not tiny:
             faults = self.solver_fault(kw)
         op = {"op": "calc", "kw": kw, "faults": faults}
+        if self.topo_dirty:
+            op["topo"] = True
+            self.topo_dirty = False
         self.last_calc = op
-        self.dirty_since_hyd = bool(pre) or kw["mode"] != "hydraulics" or bool(faults) or tiny
+        self.dirty_since_hyd = bool(pre) or kw.get("mode") != "hydraulics" or bool(faults) or tiny
         self.last_hyd_kw = kw
+        if any(e["col"] == "in_service" for e in pre):
+            op["topo"] = True
+            self.topo_dirty = True
         rep = [{"op": "repeat"}] if (not faulty and rng.random() < 0.25) else []
         return pre + [op] + rep + post
 
@@ -236,7 +288,12 @@ class _Gen:
             cands.append((t, i, c, "toggle"))
         if not cands:
             return []
+        if self.prop == "C07" and rng.random() < 0.8:
+            loads_only = [c for c in cands if c[3] == "scale"]
+            cands = loads_only or cands
         (t, i, c, how) = rng.choice(cands)
+        if how == "toggle":
+            self.topo_dirty = True
         key = (t, i, c)
         cur = self.values.get(key, True if how == "toggle" else 0.0)
         if how == "toggle":
@@ -253,6 +310,8 @@ class _Gen:
         while self.pending_undo:
             (t, i, c, old) = self.pending_undo.pop()
             self.values[(t, i, c)] = old
+            if isinstance(old, bool):
+                self.topo_dirty = True
             out.append({"op": "edit", "table": t, "index": i, "col": c, "val": old})
             self.dirty_since_hyd = True
             if not all_:
@@ -263,6 +322,13 @@ class _Gen:
         rng = self.rng
         reset = rng.random() < 0.3
         kw = {}
+        if self.prop == "C14":
+            kw = self.opt_kw(nmax=4, allow_mode=rng.random() < 0.3)
+            for k in ("iter",) + STAGE_ITER:
+                if k in kw:
+                    kw[k] = max(kw[k], 40)
+            kw.pop("alpha", None) if rng.random() < 0.5 else None
+            return {"op": "setopt", "reset": reset, "kw": kw}
         if rng.random() < 0.8:
             full = self.calc_kw()
             keys = sorted(k for k in full if k not in ("mode",))
@@ -525,6 +591,9 @@ def _execute(trace, res, prop, program, meta, ops, solver, fs):
             overlay[key] = op["val"]
             live.stored_sol = None
             live.last_res = None
+            if isinstance(op["val"], bool) or op["col"] in ("in_service", "opened"):
+                for s_ in replicas:
+                    s_.topology_dirty = True
             res.sig_parts.append("E")
             continue
 
@@ -647,7 +716,7 @@ def _execute(trace, res, prop, program, meta, ops, solver, fs):
                 res.count("probe:failure-after-success")
         else:
             # any other exception from a calculation whose inputs are valid
-            res.violate("C05", "C05/wrong-exception:%s@%s" % (outcome[4:], mode), repr(exc)[:200], oi)
+            res.violate("C05", "C05/wrong-exception:%s:%s@%s" % (outcome[4:], _slug(exc), mode), repr(exc)[:200], oi)
 
         # ---- C14: options in force ---------------------------------------------------------
         _check_options(res, live.net, opts_model, oi, "pipeflow", um, kw, after_calc=True)
@@ -745,6 +814,11 @@ def _execute(trace, res, prop, program, meta, ops, solver, fs):
 
 
 # ------------------------------------------------------------------------------------------
+def _slug(exc):
+    import re
+    return re.sub(r"[^a-z]+", "-", str(exc).lower())[:48].strip("-")
+
+
 def _is_bool(v, want):
     return isinstance(v, (bool, np.bool_)) and bool(v) is want
 
@@ -897,13 +971,84 @@ def _save_load(net, path, fs, fault, eno, n):
 
 
 def compare_loaded(orig, loaded, path):
-    """C15 equality oracle; returns list of detail strings."""
-    a = snap.snapshot(orig, include_results=True)
-    b = snap.snapshot(loaded, include_results=True)
-    a["user_pf_options"] = snap.canon_deep(orig.get("user_pf_options", {}))
-    b["user_pf_options"] = snap.canon_deep(loaded.get("user_pf_options", {}))
-    d = snap.diff(a, b)
-    return d
+    """C15 equality oracle; returns list of detail strings ('<entry>' or '<table>.<column>[:kind]').
+
+    Structure (entries, columns and their order, dtypes, index dtype and labels) is compared
+    exactly.  Float values are compared with |a-b| <= 1e-14 + 1e-13*|b| because the JSON text
+    format carries 15 decimals - the property's own yardstick (nets_equal) is far looser; NaN
+    must stay NaN and +-inf must stay +-inf."""
+    out = []
+    ka = sorted(k for k in orig.keys() if isinstance(k, str) and not k.startswith("_"))
+    kb = sorted(k for k in loaded.keys() if isinstance(k, str) and not k.startswith("_"))
+    for k in sorted(set(ka) - set(kb)):
+        out.append("%s:removed" % k)
+    for k in sorted(set(kb) - set(ka)):
+        out.append("%s:added" % k)
+    for k in sorted(set(ka) & set(kb)):
+        a, b = orig[k], loaded[k]
+        if isinstance(a, pd.DataFrame):
+            if not isinstance(b, pd.DataFrame):
+                out.append("%s:type" % k)
+                continue
+            if list(map(str, a.columns)) != list(map(str, b.columns)):
+                if sorted(map(str, a.columns)) != sorted(map(str, b.columns)):
+                    out.append("%s.@columns" % k)
+                    continue
+                out.append("%s.@column-order" % k)
+            if a.index.dtype != b.index.dtype:
+                out.append("%s.@index:dtype" % k)
+            if len(a) != len(b) or not np.array_equal(a.index.values, b.index.values):
+                if len(a) == len(b) and sorted(a.index.values.tolist()) == sorted(b.index.values.tolist()):
+                    out.append("%s.@index:order" % k)
+                    b = b.loc[a.index]
+                else:
+                    out.append("%s.@index" % k)
+                    continue
+            for c in a.columns:
+                ca, cb = a[c], b[c]
+                if ca.dtype != cb.dtype:
+                    out.append("%s.%s:dtype" % (k, c))
+                    continue
+                va, vb = ca.values, cb.values
+                if va.dtype.kind == "f":
+                    na, nb_ = np.isnan(va), np.isnan(vb)
+                    if not np.array_equal(na, nb_):
+                        out.append("%s.%s:nan" % (k, c))
+                        continue
+                    ia, ib = np.isinf(va), np.isinf(vb)
+                    if not np.array_equal(ia, ib) or not np.array_equal(va[ia], vb[ib]):
+                        out.append("%s.%s:inf" % (k, c))
+                        continue
+                    m = ~na & ~ia
+                    if not np.all(np.abs(va[m] - vb[m]) <= 1e-14 + 1e-13 * np.abs(vb[m])):
+                        out.append("%s.%s" % (k, c))
+                elif va.dtype == object:
+                    for x, y in zip(va, vb):
+                        if snap.canon_deep(x) != snap.canon_deep(y):
+                            kind = ":none-vs-nan" if (x is None or y is None) else ""
+                            out.append("%s.%s%s" % (k, c, kind))
+                            break
+                else:
+                    if not np.array_equal(va, vb):
+                        out.append("%s.%s" % (k, c))
+        elif k == "user_pf_options":
+            if snap.canon_deep(dict(a)) != snap.canon_deep(dict(b)):
+                out.append(k)
+        elif k == "sector":
+            if not (a == b and str(a) == str(b)):
+                out.append(k)
+        elif k == "converged":
+            if bool(a) != bool(b):
+                out.append(k)
+        elif k == "component_list":
+            na_ = [c.__name__ if isinstance(c, type) else type(c).__name__ for c in a]
+            nb_ = [c.__name__ if isinstance(c, type) else type(c).__name__ for c in b]
+            if na_ != nb_:
+                out.append(k + (":order" if sorted(na_) == sorted(nb_) else ""))
+        else:
+            if snap.canon_deep(a) != snap.canon_deep(b):
+                out.append(k)
+    return out
 
 
 def _do_restart(res, live, op, fs, oi, n):
@@ -932,8 +1077,8 @@ def _do_restart(res, live, op, fs, oi, n):
     for x in d:
         res.violate("C15", "C15/lost:%s@%s" % (_strip(x), op["path"].split("_")[0]), x, oi)
     try:
-        if not pp.nets_equal(live.net, loaded, check_only_results=False):
-            res.violate("C15", "C15/nets_equal-false@%s" % op["path"].split("_")[0], "", oi)
+        if not d and not pp.nets_equal(live.net, loaded, check_only_results=False):
+            res.violate("C15", "C15/nets_equal-false-but-deep-compare-equal@%s" % op["path"].split("_")[0], "", oi)
     except Exception as e:
         res.violate("C15", "C15/nets_equal-raised:%s" % type(e).__name__, repr(e)[:200], oi)
     res.oracle_checks += 1
@@ -976,21 +1121,31 @@ def _run_replicas(res, replicas, op, live, outcome, mode, solver, oi):
         kw.update(TIGHT)
         for k in ("iter",) + STAGE_ITER:
             kw.pop(k, None)
-        kw["iter"] = 100 if kw.get("alpha", 1) == 1 else 400
+        kw.pop("alpha", None)   # full Newton steps: quadratic convergence, error << comparison tolerance
+        kw["iter"] = 100
         kw.update(s.overrides)
-        if op.get("_topology_changed_since_last"):
+        cc = kw.get("check_connectivity", s.net.get("user_pf_options", {}).get("check_connectivity", True))
+        if cc != getattr(s, "last_cc", cc):
+            s.topology_dirty = True   # the set of active elements depends on the connectivity check
+        s.last_cc = cc
+        if op.get("topo") or s.topology_dirty or not getattr(s, "primed", False):
+            # internal data may only be reused while the set of active elements is unchanged
             kw["reuse_internal_data"] = False
         out, _ = _run_pipeflow(s.net, kw, solver, [])
+        s.primed = out == "ok"
+        s.topology_dirty = False
+        if kw.get("reuse_internal_data") and s.overrides.get("reuse_internal_data"):
+            res.count("probe:reuse-path-taken")
         outs.append(out)
     ref = replicas[0]
     for s, out in zip(replicas[1:], outs[1:]):
         if out != outs[0]:
-            res.violate("C07", "C07/verdict-differs:%s-vs-%s@%s" % (ref.name, s.name, mode), "%s vs %s" % (outs[0], out), oi)
+            res.violate("C07", "C07/verdict-differs:%s-vs-%s:%s-vs-%s@%s" % (ref.name, s.name, outs[0], out, mode), "%s vs %s" % (outs[0], out), oi)
             continue
         if out != "ok":
             continue
-        d = netmodel.results_close(ref.net, s.net, rtol=1e-6, atol=1e-8)
-        for x in d:
-            res.violate("C07", "C07/results-differ:%s:%s-vs-%s" % (_strip(x), ref.name, s.name), x, oi)
+        d = netmodel.results_close(ref.net, s.net, rtol=1e-5, atol=1e-8, mask_zero_flow=True)
+        if d:
+            res.violate("C07", "C07/results-differ:%s-vs-%s@%s" % (ref.name, s.name, mode), ",".join(d)[:400], oi)
         res.oracle_checks += 1
     res.count("probe:replica-compare")
